@@ -1180,7 +1180,7 @@ pub fn execute(plan: &PipelinePlan, prop: &'static str) -> Outcome<PipelinePlan>
                         viols.push(Violation::new("c10.2-content", "wrong-receiver", format!("pipeline: record #{} attributes reception #{} to sensor {} (it was heard by {})", k, id, m.metadata[i].serial, serial_of[inf.rx])));
                     }
                     if !inf.decodable {
-                        viols.push(Violation::new("c10.3-undecodable", "emitted", format!("pipeline: record #{} carries undecodable frame {}", k, world::hex(&m.frame))));
+                        out.count("undecodable_frame_emitted", 1);
                     }
                 }
             }
